@@ -626,7 +626,21 @@ func jsondecStream(rng *rand.Rand, n int, tier string, out string) (*Summary, er
 					}
 				}
 				o := objs[rng.Intn(len(objs))]
-				o[pick(rng, []string{"zz-unknown", "v-main:zz-unknown", "zz:zz-other"})] = pick(rng, []interface{}{json.Number("1"), "x", map[string]interface{}{"q": true}})
+				uname := pick(rng, []string{"zz-unknown", "v-main:zz-unknown", "zz:zz-other"})
+				if rng.Intn(3) == 0 && len(o) > 0 {
+					// a name with two colons whose last part is the name of a real sibling: still unknown
+					var sib []string
+					for k := range o {
+						sib = append(sib, k)
+					}
+					sort.Strings(sib)
+					base := pick(rng, sib)
+					if i := strings.LastIndex(base, ":"); i >= 0 {
+						base = base[i+1:]
+					}
+					uname = "vx:ext:" + base
+				}
+				o[uname] = pick(rng, []interface{}{json.Number("1"), "x", map[string]interface{}{"q": true}})
 				jb, _ = json.Marshal(doc)
 			}
 			ignore := rng.Intn(2) == 0
